@@ -5,6 +5,7 @@ package main
 // Replica A runs in this process; replica B runs in a separate OS process started later with GOMAXPROCS=1.
 
 import (
+	sdk "github.com/cosmos/cosmos-sdk/types"
 	"bufio"
 	"bytes"
 	"encoding/base64"
@@ -151,6 +152,7 @@ func runReplica(job *ReplicaJob, sched [][]any, rep string, out *bufio.Writer) e
 			case "Query":
 				_, qp := c.abciQueries()
 				rec["panic"] = qp
+				c.oddQueries() // read noise with unusual but decodable requests (answers discarded)
 			case "Restart":
 				if err := c.Restart(); err != nil {
 					rec["panic"], rec["err"] = true, err.Error()
@@ -226,3 +228,30 @@ func cmdReplicaChild() error {
 }
 
 var _ = abci.CodeTypeOK
+
+
+// oddQueries: read-only requests a replica may happen to serve and another may not - unusual address lengths (1, 2, 19, 21, 32, 255 bytes), empty and
+// over-long names, extreme paging.  Whatever they answer, serving them must leave no trace in how the node executes later blocks.
+func (c *Chain) oddQueries() {
+	defer func() { recover() }()
+	ask := func(path string, req proto.Message) {
+		bz, _ := proto.Marshal(req)
+		c.Query(path, bz, 0)
+	}
+	for _, n := range []int{1, 2, 19, 21, 32, 255} {
+		addr := sdk.AccAddress(bytes.Repeat([]byte{0x41}, n)).String()
+		for _, tn := range []string{"", "a", strings.Repeat("t", 70), strings.Repeat("t", 300)} {
+			ask("/panacea.aol.v2.Query/Topics", &aoltypes.QueryTopicsRequest{OwnerAddress: addr})
+			ask("/panacea.aol.v2.Query/Topic", &aoltypes.QueryTopicRequest{OwnerAddress: addr, TopicName: tn})
+			ask("/panacea.aol.v2.Query/Writers", &aoltypes.QueryWritersRequest{OwnerAddress: addr, TopicName: tn})
+			ask("/panacea.aol.v2.Query/Writer", &aoltypes.QueryWriterRequest{OwnerAddress: addr, TopicName: tn, WriterAddress: addr})
+			ask("/panacea.aol.v2.Query/Record", &aoltypes.QueryRecordRequest{OwnerAddress: addr, TopicName: tn, Offset: 1<<63 + 5})
+		}
+		ask("/panacea.pnft.v2.Query/DenomsByOwner", &pnfttypes.QueryDenomsByOwnerRequest{Owner: addr})
+		ask("/panacea.pnft.v2.Query/PNFTsByDenomOwner", &pnfttypes.QueryPNFTsByDenomOwnerRequest{DenomId: "a", Owner: addr})
+	}
+	ask("/panacea.aol.v2.Query/Topics", &aoltypes.QueryTopicsRequest{OwnerAddress: c.AcctList[0].Bech, Pagination: &query.PageRequest{Limit: 1, Offset: 1 << 40, Reverse: true}})
+	ask("/panacea.did.v2.Query/DID", &didtypes.QueryDIDRequest{DidBase64: "!!"})
+	ask("/panacea.did.v2.Query/DID", &didtypes.QueryDIDRequest{DidBase64: base64.StdEncoding.EncodeToString([]byte("did:panacea:"))})
+	ask("/panacea.pnft.v2.Query/PNFT", &pnfttypes.QueryPNFTRequest{DenomId: "", Id: ""})
+}
